@@ -114,32 +114,29 @@ def MessageAny (sp : Bool) (cell_slice : Frag) : Rd.R := do
   let (t3, cell_slice) ← Rd.loadBit cell_slice
   if (Rd.truthy t3) then do
     let (t4, cell_slice) ← Rd.loadBit cell_slice
-    if (Rd.truthy t4) then do
-      let (t5, cell_slice) ← Rd.viaRef Src.StateInit cell_slice
-      let (t6, cell_slice) ← Rd.loadBit cell_slice
-      if (Rd.truthy t6) then do
-        let (t7, cell_slice) ← Rd.loadRefV cell_slice
-        pure ((Rd.obj "MessageAny" [("info", t1), ("init", t5), ("body", t7)]), cell_slice)
-      else do
-        let t8 := (Rd.toCell sp cell_slice)
-        pure ((Rd.obj "MessageAny" [("info", t1), ("init", t5), ("body", t8)]), cell_slice)
-    else do
-      let (t9, cell_slice) ← Src.StateInit sp cell_slice
-      let (t10, cell_slice) ← Rd.loadBit cell_slice
-      if (Rd.truthy t10) then do
-        let (t11, cell_slice) ← Rd.loadRefV cell_slice
-        pure ((Rd.obj "MessageAny" [("info", t1), ("init", t9), ("body", t11)]), cell_slice)
-      else do
-        let t12 := (Rd.toCell sp cell_slice)
-        pure ((Rd.obj "MessageAny" [("info", t1), ("init", t9), ("body", t12)]), cell_slice)
+    let (t7, cell_slice) ← (if (Rd.truthy t4) then do
+          let (t5, cell_slice) ← Rd.viaRef Src.StateInit cell_slice
+          pure (t5, cell_slice)
+        else do
+          let (t6, cell_slice) ← Src.StateInit sp cell_slice
+          pure (t6, cell_slice))
+    let (t8, cell_slice) ← Rd.loadBit cell_slice
+    let (t11, cell_slice) ← (if (Rd.truthy t8) then do
+          let (t9, cell_slice) ← Rd.loadRefV cell_slice
+          pure (t9, cell_slice)
+        else do
+          let t10 := (Rd.toCell sp cell_slice)
+          pure (t10, cell_slice))
+    pure ((Rd.obj "MessageAny" [("info", t1), ("init", t7), ("body", t11)]), cell_slice)
   else do
-    let (t13, cell_slice) ← Rd.loadBit cell_slice
-    if (Rd.truthy t13) then do
-      let (t14, cell_slice) ← Rd.loadRefV cell_slice
-      pure ((Rd.obj "MessageAny" [("info", t1), ("init", t2), ("body", t14)]), cell_slice)
-    else do
-      let t15 := (Rd.toCell sp cell_slice)
-      pure ((Rd.obj "MessageAny" [("info", t1), ("init", t2), ("body", t15)]), cell_slice)
+    let (t12, cell_slice) ← Rd.loadBit cell_slice
+    let (t15, cell_slice) ← (if (Rd.truthy t12) then do
+          let (t13, cell_slice) ← Rd.loadRefV cell_slice
+          pure (t13, cell_slice)
+        else do
+          let t14 := (Rd.toCell sp cell_slice)
+          pure (t14, cell_slice))
+    pure ((Rd.obj "MessageAny" [("info", t1), ("init", t2), ("body", t15)]), cell_slice)
 -- END MessageAny
 
 -- BEGIN MsgMetadata
@@ -163,13 +160,13 @@ def MsgEnvelope (sp : Bool) (cell_slice : Frag) : Rd.R := do
   let t6 := Val.unit
   let t7 := Val.unit
   let t8 := (Rd.str "msg_envelope")
-  if (Rd.veq t1 (Val.int 5)) then do
-    let t9 := (Rd.str "msg_envelope_v2")
-    let (t10, cell_slice) ← Rd.optional cell_slice (Rd.loadUint 64)
-    let (t11, cell_slice) ← Rd.optional cell_slice (MsgMetadata sp)
-    pure ((Rd.obj "MsgEnvelope" [("type_", t9), ("cur_addr", t2), ("next_addr", t3), ("fwd_fee_remaining", t4), ("msg", t5), ("emitted_lt", t10), ("metadata", t11)]), cell_slice)
-  else do
-    pure ((Rd.obj "MsgEnvelope" [("type_", t8), ("cur_addr", t2), ("next_addr", t3), ("fwd_fee_remaining", t4), ("msg", t5), ("emitted_lt", t6), ("metadata", t7)]), cell_slice)
+  let (t12, t13, t14, cell_slice) ← (if (Rd.veq t1 (Val.int 5)) then do
+        let t9 := (Rd.str "msg_envelope_v2")
+        let (t10, cell_slice) ← Rd.optional cell_slice (Rd.loadUint 64)
+        let (t11, cell_slice) ← Rd.optional cell_slice (MsgMetadata sp)
+        pure (t10, t11, t9, cell_slice)
+      else pure (t6, t7, t8, cell_slice))
+  pure ((Rd.obj "MsgEnvelope" [("type_", t14), ("cur_addr", t2), ("next_addr", t3), ("fwd_fee_remaining", t4), ("msg", t5), ("emitted_lt", t12), ("metadata", t13)]), cell_slice)
 -- END MsgEnvelope
 
 -- BEGIN TransactionOrdinary
@@ -302,35 +299,21 @@ def Transaction : Nat → Bool → Frag → Rd.R
       let sl_ref := r12
       let t13 := Val.unit
       let (t14, sl_ref) ← Rd.loadBit sl_ref
-      if (Rd.truthy t14) then do
-        let (t15, sl_ref) ← Rd.viaRef MessageAny sl_ref
-        let (t16, sl_ref) ← Rd.loadDict 15 (Rd.viaRef MessageAny) sl_ref
-        if (!Rd.veq t16 Val.unit) then do
-          let t17 ← Rd.dictValuesSorted t16
-          let (t18, cell_slice) ← CurrencyCollection sp cell_slice
-          let (t19, cell_slice) ← Rd.viaRef Src.HashUpdate cell_slice
-          let (t20, cell_slice) ← Rd.viaRef (TransactionDescr (Transaction fuel)) cell_slice
-          pure ((Rd.obj "Transaction" [("account_addr", t3), ("lt", t4), ("prev_trans_hash", t5), ("prev_trans_lt", t6), ("now", t7), ("outmsg_cnt", t8), ("orig_status", t9), ("end_status", t10), ("in_msg", t15), ("out_msgs", t17), ("total_fees", t18), ("state_update", t19), ("description", t20)]), cell_slice)
-        else do
-          let t21 := (Rd.list [])
-          let (t22, cell_slice) ← CurrencyCollection sp cell_slice
-          let (t23, cell_slice) ← Rd.viaRef Src.HashUpdate cell_slice
-          let (t24, cell_slice) ← Rd.viaRef (TransactionDescr (Transaction fuel)) cell_slice
-          pure ((Rd.obj "Transaction" [("account_addr", t3), ("lt", t4), ("prev_trans_hash", t5), ("prev_trans_lt", t6), ("now", t7), ("outmsg_cnt", t8), ("orig_status", t9), ("end_status", t10), ("in_msg", t15), ("out_msgs", t21), ("total_fees", t22), ("state_update", t23), ("description", t24)]), cell_slice)
-      else do
-        let (t25, sl_ref) ← Rd.loadDict 15 (Rd.viaRef MessageAny) sl_ref
-        if (!Rd.veq t25 Val.unit) then do
-          let t26 ← Rd.dictValuesSorted t25
-          let (t27, cell_slice) ← CurrencyCollection sp cell_slice
-          let (t28, cell_slice) ← Rd.viaRef Src.HashUpdate cell_slice
-          let (t29, cell_slice) ← Rd.viaRef (TransactionDescr (Transaction fuel)) cell_slice
-          pure ((Rd.obj "Transaction" [("account_addr", t3), ("lt", t4), ("prev_trans_hash", t5), ("prev_trans_lt", t6), ("now", t7), ("outmsg_cnt", t8), ("orig_status", t9), ("end_status", t10), ("in_msg", t13), ("out_msgs", t26), ("total_fees", t27), ("state_update", t28), ("description", t29)]), cell_slice)
-        else do
-          let t30 := (Rd.list [])
-          let (t31, cell_slice) ← CurrencyCollection sp cell_slice
-          let (t32, cell_slice) ← Rd.viaRef Src.HashUpdate cell_slice
-          let (t33, cell_slice) ← Rd.viaRef (TransactionDescr (Transaction fuel)) cell_slice
-          pure ((Rd.obj "Transaction" [("account_addr", t3), ("lt", t4), ("prev_trans_hash", t5), ("prev_trans_lt", t6), ("now", t7), ("outmsg_cnt", t8), ("orig_status", t9), ("end_status", t10), ("in_msg", t13), ("out_msgs", t30), ("total_fees", t31), ("state_update", t32), ("description", t33)]), cell_slice)
+      let (t16, sl_ref) ← (if (Rd.truthy t14) then do
+            let (t15, sl_ref) ← Rd.viaRef MessageAny sl_ref
+            pure (t15, sl_ref)
+          else pure (t13, sl_ref))
+      let (t17, sl_ref) ← Rd.loadDict 15 (Rd.viaRef MessageAny) sl_ref
+      let (t20) ← (if (!Rd.veq t17 Val.unit) then do
+            let t18 ← Rd.dictValuesSorted t17
+            pure (t18)
+          else do
+            let t19 := (Rd.list [])
+            pure (t19))
+      let (t21, cell_slice) ← CurrencyCollection sp cell_slice
+      let (t22, cell_slice) ← Rd.viaRef Src.HashUpdate cell_slice
+      let (t23, cell_slice) ← Rd.viaRef (TransactionDescr (Transaction fuel)) cell_slice
+      pure ((Rd.obj "Transaction" [("account_addr", t3), ("lt", t4), ("prev_trans_hash", t5), ("prev_trans_lt", t6), ("now", t7), ("outmsg_cnt", t8), ("orig_status", t9), ("end_status", t10), ("in_msg", t16), ("out_msgs", t20), ("total_fees", t21), ("state_update", t22), ("description", t23)]), cell_slice)
 -- END Transaction
 
 -- BEGIN InMsg
